@@ -136,7 +136,7 @@ class Gen:
             self.budget -= 0
             return n
         x = plain('case')
-        x['plan']['fail'] = ['ALWAYS', rng.choice(['E1', 'E2', 'EOther', 'ERt', 'EKey'])]
+        x['plan']['fail'] = ['ALWAYS', rng.choice(['E1', 'E2', 'EOther', 'ERt', 'EKey', 'EKey', 'EKey'])]
         ins = list(self.p['inputs'])
         x['plan']['fail_when'] = sorted(rng.sample(ins, rng.randint(1, len(ins) - 1)))
         self.finish(x)
@@ -202,6 +202,42 @@ class Gen:
         if rng.random() < 0.5:
             cases.reverse()
         consumer['params'].append([f'rp{len(consumer["params"])}', ['sw', f'sw{self.sw}', d['id'], cases]])
+
+    def rec_parallel_shape(self, consumer, visible):
+        """consumer(r: Rec(S..D), o: OneOf([F, C2])), S -> A, S -> B, D(a: A, b: B), C2(a: Input(B)), F fails: while a
+        re-iteration is blocked on the slow chain A, the second candidate's sub-pipeline asks for the re-armed node B of
+        the other chain; B must still be executed once per iteration.  (Hostile: C2 is an unordered outside reader.)"""
+        rng = self.rng
+
+        def mk(params, flag=None, **kw):
+            n = self.new_node(**kw)
+            n['params'] = params
+            if flag:
+                self.flags[n['id']].add(flag)
+            return n
+        st = mk([['a', ['in', 'N0']]], 'private_rec', start_of=True)
+        self.finish(st)
+        a = mk([['a', ['in', st['id']]]], 'private_rec')
+        self.finish(a)
+        b = mk([['a', ['in', st['id']]]], 'private_rec')
+        self.finish(b)
+        params = [['a', ['in', a['id']]], ['b', ['in', b['id']]]]
+        if rng.random() < 0.5:
+            params.reverse()
+        d = mk(params, 'dest', kind='dest', recurrent=True)
+        d['plan'].update({'start': st['id'], 'want_iter': {str(v): rng.choice([1, 1, 2]) for v in self.p['inputs']}})
+        self.finish(d)
+        f = mk([['a', ['in', 'N0']]], 'cand')
+        f['plan']['fail'] = ['ALWAYS', rng.choice(['E1', 'E2'])]
+        self.finish(f)
+        c2 = mk([['a', ['in', b['id']]]], 'cand')
+        self.finish(c2)
+        k = len(consumer['params'])
+        marks = [[f'rq{k}', ['rec', st['id'], d['id'], 2]], [f'rq{k + 1}', ['oneof', [f['id'], c2['id']]]]]
+        if rng.random() < 0.5:
+            marks.reverse()
+        consumer['params'].extend(marks)
+        self.slow_hint.extend([a['id'], f['id']])
 
     def late_oneof_shape(self, consumer, visible):
         """consumer(p: OneOf([G, M]), q: Input(B)), M(v: OneOf([A, B])), G fails: the inner one-of starts late (only
@@ -291,6 +327,8 @@ class Gen:
             return nid
         if not in_rec and not in_cand and depth > 0 and self.budget >= 6 and rng.random() < p.get('p_rec_paths_shape', 0.02):
             self.rec_paths_shape(node, local_visible)
+        if not in_rec and not in_cand and depth > 0 and self.budget >= 6 and rng.random() < p.get('p_rec_parallel_shape', 0.0):
+            self.rec_parallel_shape(node, local_visible)
         if not in_rec and depth > 0 and self.budget >= 5 and rng.random() < p.get('p_late_oneof_shape', 0.02):
             self.late_oneof_shape(node, local_visible)
         if not in_rec and depth > 0 and self.budget >= 4 and rng.random() < p.get('p_sibling_oneof_shape', 0.02):
